@@ -11,7 +11,7 @@ def registry():
     reg = {}
     for mod in (checks_arrays,):
         reg.update(mod.CHECKS)
-    for name in ("checks_index", "checks_workspace", "checks_dimsets", "checks_stocks", "checks_stockobject", "checks_system", "checks_tables",
+    for name in ("checks_index", "checks_workspace", "checks_dimsets", "checks_stocks", "checks_stockobject", "checks_system", "checks_tables", "checks_c04",
                  "checks_export"):
         try:
             mod = __import__(f"harness.{name}", fromlist=["CHECKS"])
